@@ -464,7 +464,9 @@ const PATHS_T: [&str; 11] = [
 const TYPES_Q: [&str; 4] = ["script", "image", "websocket", "document"];
 const TYPES_T: [&str; 8] = ["script", "image", "websocket", "document", "sub_frame", "xhr", "", "bogus"];
 
-const HOSTS: [&str; 48] = [
+const HOSTS: [&str; 51] = [
+    // a private multi-label suffix under a generic TLD, and two customers below it
+    "blogspot.com", "diary.blogspot.com", "tracker.blogspot.com",
     // single label, eTLD+1 under com / org, deep sub-domains
     "example.com",
     "www.example.com",
